@@ -328,6 +328,15 @@ pub fn rep_steps(valid_pub: &[Vec<u8>], small: bool) -> Vec<String> {
         "step op=set_ip ip=00000000000000000000ffff0a000001".into(),
         "step op=set_udp_socket ip=fe800000000000000000000000000001 port=9000 scope=3 flow=0".into(),
         "step op=set_tcp_socket ip=20010db8000000000000000000000002 port=443 scope=0 flow=74565".into(),
+        // addresses whose bytes spell reserved keys, values at the 55/56-byte header boundary,
+        // a value equal to a key, the value that is already stored
+        "step op=set_ip ip=74637036".into(),
+        "step op=set_udp_socket ip=75647036 port=30303".into(),
+        "step op=set_ip ip=736563703235366b3100000000000000".into(),
+        format!("step op=insert key=7878 vt=bytes val={}", hx(&vec![0x61; 55])),
+        format!("step op=insert key=7878 vt=bytes val={}", hx(&vec![0x61; 56])),
+        "step op=insert key=6b vt=bytes val=6964".into(),
+        "step op=insert key=6964 vt=bytes val=7634".into(),
         "step op=insert_raw key=6964 raw=82763400".into(),
         "step op=insert_raw key=6964 raw=8276348269708401020304".into(),
         "step op=insert_raw key=746370 raw=82765f82765f".into(),
@@ -423,6 +432,13 @@ pub fn inits(rng: &mut Rng, sig_len: usize) -> Vec<String> {
         "init kind=build calls=raw:6970:8501020304ff;build:0:0;ip4:{} signer=0",
         hx(&rand_ip4(rng))
     ));
+    // `Enr::empty`, the same key added twice, a record with as many pairs as the builder allows
+    v.push("init kind=empty signer=0".into());
+    v.push("init kind=build calls=raw:6b:01;raw:6b:02;uint:6b:3 signer=0".into());
+    {
+        let many: Vec<String> = (1..=85u8).map(|i| format!("raw:{:02x}:{:02x}", i, (i % 0x7e) + 1)).collect();
+        v.push(format!("init kind=build calls={} signer=0", many.join(";")));
+    }
     // a build that fails validation, then the same builder again with nothing (or only seq) in between
     v.push("init kind=build calls=raw:746370:83010000;build:0:0 signer=0".into());
     v.push("init kind=build calls=raw:7a:0102;build:0:0;seq:9 signer=1".into());
